@@ -15,7 +15,7 @@ def fill(claim, na):
         "successful evaluate()/run(); every exit of join()/cancel() - normal, timeout, failing "
         "evaluate - passes clean_up() exactly once; chdir is restored on every path; every "
         "NamedTemporaryFile a class creates is released by its clean_up(); hook overrides chain to "
-        "super(); the state flag is written only by life-cycle methods. evaluate() refuses every non-zero exit code. Not decided: that results "
+        "super(); the state flag is written only by life-cycle methods. evaluate() refuses every non-zero exit code. A timeout of 0 is a timeout (optional numbers are tested with `is None`); MSAApp labels sequence i with str(i), fetches the rows by label and reports, per output position, the label found there (order mapping). Not decided: that results "
         "equal what the external program produced, order restoration, liveness of the child.",
         "Trusted: the may-raise policy (raise statements, self.run()/self.evaluate(), Popen/"
         "communicate(timeout)/open), the lowering-free Python ast, the frozen role tables in "
@@ -35,7 +35,7 @@ def fill(claim, na):
         "bcif.py/component.py defines the six dunders over one backing field, a super() "
         "delegation targets the same dunder with the protocol arity, the '_' key prefix is "
         "applied in all keyed dunders and removed exactly once; the cached row count is reset "
-        "when a column is set. the row-count cache is reset on every path of __setitem__. Not decided: the round trip of arbitrary tables as a whole.",
+        "when a column is set. the row-count cache is reset on every path of __setitem__. A quoted token is closed only by the quote character that opened it; every branch of _escape writes the value itself; dtype-family tests use the abstract NumPy types. Not decided: the round trip of arbitrary tables as a whole.",
         "Trusted: the idiom tables of sa/props/C06.py (how a guard is recognised as implied by "
         "'value starts with t'), the assumption that the first column of a looped row starts "
         "the line (checked structurally).",
@@ -57,7 +57,7 @@ def fill(claim, na):
         "set_structure starts from an empty line list on every path; the ID wrap is the identity "
         "on 1..max and applied exactly to positive IDs; for lengths 4 and 5 decode undoes the "
         "offset encode applies, the ranges are contiguous and max_hybrid36_number is the last "
-        "accepted value. the hybrid-36 ids computed in the hybrid36 arm are not overwritten after the mode switch. Not decided: value round trip, model indexing, bond selection for CONECT.",
+        "accepted value. the hybrid-36 ids computed in the hybrid36 arm are not overwritten after the mode switch. CONECT records receive the array that fills the ATOM serial column; the digit-counting helper measures min and max of ALL values passed (NaN/inf in B-factor, occupancy, box are refused only through it). Not decided: value round trip, model indexing, bond selection for CONECT.",
         "Trusted: summary of number_of_integer_digits (checked structurally), np.round/format "
         "agreement on the integer part, float32 coordinates (checked in atoms.py), float64 "
         "annotations, the frozen writer-variable/slice pairing table in sa/props/C07.py.",
@@ -76,7 +76,7 @@ def fill(claim, na):
         "is kept; a reshape merges only adjacent axes of the documented shape; the Copyable "
         "contract (constructor arity, super chain, fresh values on the clone, no bound method as "
         "value) for Atom/AtomArray/AtomArrayStack/BondList; slice(i, i+1) handles i=-1; a caller's "
-        "index is never compared with positions un-normalised. Not decided: equality with a "
+        "index is never compared with positions un-normalised. Atom.__init__ copies the coordinates it is given (array[i] / copy() do not hand out views); state that __copy_create__ passes to the constructor is copied there; NaN-tolerant annotation comparison covers every float width. Not decided: equality with a "
         "list-of-atoms model over arbitrary histories (values).",
         "Trusted: the field/axis idiom tables and the frozen exemptions of sa/props/C01.py; the "
         "documented shapes in docstrings; numpy view sharing on slicing is by design.",
@@ -97,7 +97,7 @@ def fill(claim, na):
         "separators and '%' are outside the safe set, characters that make the indexer skip a "
         "line cannot start an entry, column order, strand symbols and '.' placeholders agree; "
         "FASTQ offset table and entry-tuple order; GenBank field positions shift by exactly the "
-        "change in line count. Not decided: the full round trip of arbitrary entries, qualifier "
+        "change in line count. Repeated GenBank qualifiers are written one line per piece of str.split(<the reader's separator>); the field splice is recognised in both spellings. Not decided: the full round trip of arbitrary entries, qualifier "
         "regex parsing, ORIGIN formatting.",
         "Trusted: single-element replacement lines[i] = x keeps positions; quote/unquote are "
         "inverse outside the safe set; the idiom tables in sa/props/C12.py.",
@@ -119,7 +119,7 @@ def fill(claim, na):
         "finding: boolean mask); every site where _bonds can gain rows recomputes "
         "_max_bonds_per_atom on all paths and the unchecked output buffers are sized by it; that "
         "cache is written only in bonds.pyx; bond types are range-checked (known finding: no "
-        "lower bound). Not decided: observational equality of the views with a set-of-bonds model.",
+        "lower bound). Added: the sanitised index replaces the caller's raw index (no later read of the raw value); every store at a bond-counter position goes into a dimension allocated with the cached maximum; merge() covers the atoms of both lists with the argument's bonds first, == compares atom count and bond set, remove_aromaticity() maps exactly the aromatic types to their plain counterparts on the stored column, remove_bond_order() sets ANY (exact specifications on summaries). Not decided: observational equality of all views with a set-of-bonds model.",
         "Trusted: the Cython lowering (types of locals), the BondList invariant 'stored index < "
         "atom count', loop counters over a view's own shape.",
         "DESIGN.md section 2, C02",
@@ -140,7 +140,7 @@ def fill(claim, na):
         "defects and tests overlap inclusively; Feature/Annotation/AnnotatedSequence satisfy the "
         "Copyable contract (constructor arity, no bound method as value, fresh values); reading "
         "and writing through a Feature index use the same location order, the same index "
-        "arithmetic and both reverse-complement reverse-strand parts. Not decided: per-base "
+        "arithmetic and both reverse-complement reverse-strand parts. A copy owns its feature set (the constructor copies the set it is handed). Not decided: per-base "
         "equality with a model for arbitrary annotations.",
         "Trusted: slice bounds and Location.first/last are positions, len(sequence) an index; "
         "idiom tables in sa/props/C13.py.",
@@ -183,7 +183,7 @@ def fill(claim, na):
         "the nine residue-info fields and charges, model i is conformer position i; a metadata "
         "value line starting with '>' or '$$$$' is refused (also by the constructor), key "
         "components are serialised in the forms the component regexes parse; SDFile stores "
-        "lazily parsed records and compares through __getitem__. SDRecord getters store what they parse on demand; every V2000 reader slice is an obligation. Not decided: coordinates to "
+        "lazily parsed records and compares through __getitem__. SDRecord getters store what they parse on demand; every V2000 reader slice is an obligation. The name a metadata Key accepts and the name the reader recognises between < > are the same regular language (compared on regex syntax trees); the coordinate guard is evaluated for a digit bound or a magnitude bound alike; to_mol() leaves the caller's structure unchanged (effect analysis). Not decided: coordinates to "
         "0.0001, V3000 property parsing, kekulisation.",
         "Trusted: float32 coordinates; blank lines / surrounding blanks in metadata values are "
         "format limits; idiom tables in sa/props/C18.py.",
@@ -206,7 +206,7 @@ def fill(claim, na):
         "only by unsigned char values, its sentinel is the alphabet length, the decoder tests >= "
         "before its unchecked read; all Sequence subclasses satisfy the Copyable contract, copy() "
         "and reverse(copy=True) copy the code; encode*/decode* raise AlphabetError only; the ORF "
-        "lists of translate() are permuted together. a shallow copy is never written into (derived codon tables start from a deep copy); the mapper shortcut requires the encoding alphabet to extend the decoding one. Not decided: encode/decode identity on all "
+        "lists of translate() are permuted together. a shallow copy is never written into (derived codon tables start from a deep copy); the mapper shortcut requires the encoding alphabet to extend the decoding one. The dtype ladders are decided arithmetically (largest alphabet size per unsigned type = 2**bits); integer tests accept NumPy integers; decoding codon numbers does not overwrite the caller's array; the dictionary lookup of Alphabet.encode sits inside the translating try. Not decided: encode/decode identity on all "
         "inputs, translation values, ORF positions.",
         "Trusted: IUPAC oracle table; Cython lowering for parameter types; idiom tables in sa/props/C03.py.",
         "DESIGN.md section 2, C03",
@@ -229,7 +229,7 @@ def fill(claim, na):
         "the PDBx and the PDB reader, the highest-occupancy filter starts below every admissible "
         "sum; no comparison is an unparenthesised operand of a '&'/'|' chain (thorough: all 187 "
         "Python files), the canonical-link filter has its five conjuncts; integer down-casting "
-        "checks the minimum and the maximum. stacks are laid out model-major consistently (model numbers repeated, data and mask tiled alike, reader reshape); 'first' altloc keeps file order; compress() range guard as in C05. Not decided: equality of the structure read back, "
+        "checks the minimum and the maximum. stacks are laid out model-major consistently (model numbers repeated, data and mask tiled alike, reader reshape); 'first' altloc keeps file order; compress() range guard as in C05. Public functions of convert.py change none of their arguments in place except the file that set_* fills (interprocedural effect analysis: extra_fields is copied). Not decided: equality of the structure read back, "
         "struct_conn matching on data, box equivalence.",
         "Trusted: mmCIF item semantics frozen in ATOM_SITE; name-based call resolution inside convert.py.",
         "DESIGN.md section 2, C04",
@@ -250,7 +250,7 @@ def fill(claim, na):
         "IntegerPacking cast unchecked); _safe_cast tests both bounds before converting and "
         "refuses float->int; compress() tests finiteness and |x|*factor < int32 max before the "
         "fixed point encoding, uses the tested factor and falls back losslessly; the integer "
-        "down-cast tests minimum and maximum. bcif.py wire agreement: serialize keys = deserialize keys, each value returns to the attribute it came from, element keys, one-prefix removal, codec pairing, msgpack type flags. Not decided: numeric invertibility within tolerance.",
+        "down-cast tests minimum and maximum. bcif.py wire agreement: serialize keys = deserialize keys, each value returns to the attribute it came from, element keys, one-prefix removal, codec pairing, msgpack type flags. Reading a column (as_array with masked_value, as_item, serialize, ==) does not write into it; the tolerance given to compress() reaches every level; the msgpack packer uses only lossless options; dtype-family tests use the abstract NumPy types. Not decided: numeric invertibility within tolerance.",
         "Trusted: argsort/searchsorted results are bounded by the array length; Cython lowering.",
         "DESIGN.md section 2, C05",
     )
@@ -269,7 +269,7 @@ def fill(claim, na):
         "both table classes expose the same public methods with the same parameters and the same "
         "validators (frozen list of class-specific methods); unpickling receives every "
         "constructor argument, state is saved/restored by the paired helpers and __cinit__ sets "
-        "every C attribute. Not decided: exactness of match sets, selectors.",
+        "every C attribute. Added (parts of the exact-match clause that are visible in the code): in the bucketed table every stored k-mer that is compared with a wanted one is read from the bucket `wanted % n_buckets` (or the same-numbered bucket of the other table) through an int64 view (known finding: __getitem__ compares the low 32 bits), table entries are read as uint32, every local that enters k-mer arithmetic in kmeralphabet.pyx is 64 bits wide, the ignore mask is read at the positions of the k-mer it decides about (known finding: spaced k-mers), the pruning bound of ScoreThresholdRule is the row maximum, CachedSyncmerSelector forwards all shared constructor arguments, the min-code threshold is offset + (max - min + 1)/compression. Not decided: exactness of match sets as a whole, minimizer/syncmer window logic.",
         "Trusted: k-mers returned by a SimilarityRule are valid; create_kmers() validates symbol codes (C03).",
         "DESIGN.md section 2, C10",
     )
@@ -287,7 +287,7 @@ def fill(claim, na):
         "maximal cell length for the largest radius and that maximum follows every insertion "
         "(known finding: the size is computed in a 32-bit C int and overflows for large radii); "
         "image indices are folded back before the mask is written; per-query radii are shape- and "
-        "sign-checked. Not decided: exactness of the returned neighbour sets.",
+        "sign-checked. Added (the query itself): an atom is kept exactly when squared_distance(query i, stored atom) <= sq_radii[i] with sq_radii the squared radius of that query; periodic lists wrap the query coordinates in each public method before any other use; the candidate buffer is (2 r_max + 1)^3 * max cell length with r_max the largest radius of the call and is never capped; only non-finite positions leave the position loop early. Not decided: that the visited cells cover the sphere (cell radius vs. Euclidean radius), minimum-image correctness.",
         "Trusted: constructor invariant (stored atoms lie inside the grid).",
         "DESIGN.md section 2, C14",
     )
@@ -327,8 +327,8 @@ def fill(claim, na):
         "on its flag and uses the reversed-prefix/suffix slices, in score-only mode each score is "
         "the maximum of exactly the candidates the selector compares and nothing but the trace "
         "depends on score_only, both modes report the same variable; the two ungapped extension "
-        "loops are identical. NOT decided: the upper bound by the optimum, band containment as a "
-        "value property, X-drop pruning.",
+        "loops are identical. Added: the out-of-band sentinel leaves head-room for one gap penalty plus one negative score (exact specification); the upstream extension is switched off when either seed coordinate is 0; a pruned cell (score 0) is not extended by a substitution score in the linear and the affine X-drop tables; the C extension function stores its score out-parameter on every path. NOT decided: the upper bound by the optimum, band containment as a "
+        "value property.",
         "Trusted: as C08.",
         "DESIGN.md section 2, C09",
     )
@@ -346,7 +346,7 @@ def fill(claim, na):
         "a set; distance_to sums both paths to the LCA; UPGMA and NJ search the minimum over the "
         "unclustered lower triangle, write the merged distances to both triangles, retire exactly "
         "the absorbed node; UPGMA weights by cluster sizes summed afterwards and uses half the "
-        "distance as height; NJ ends with a three-way join. NOT decided: ultrametricity, "
+        "distance as height; NJ ends with a three-way join; no sweep over the nodes is left early and the minimum search starts at MAX_FLOAT; cluster sizes are counted in at least 32 bits; the parser drops every kind of whitespace and hands the label list to every recursive call; the lowest common ancestor is the last common node of the two root paths and nothing else; dropping a single-child node adds its length to the length reported for the converted child. NOT decided: ultrametricity, "
         "additivity, path lengths as values.",
         "Trusted: Cython lowering; float round trip of distances.",
         "DESIGN.md section 2, C19",
@@ -366,7 +366,7 @@ def fill(claim, na):
         "-1 in trace and code matrix; terminal-gap bounds; every parameter of the conversion "
         "helpers is read, the gap state of score() is reset per sequence, a column is identical "
         "only if all rows agree; align_multiple applies one permutation to rows and trace columns "
-        "and turns the neutral gap symbol into -1. NOT decided: trace validity of produced "
+        "and turns the neutral gap symbol into -1. score() looks up matrix[row i, row j] for i < j; get_symbols() decodes row i with the alphabet of sequence i; no loop overwrites one location in every iteration without reading it (lost update). NOT decided: trace validity of produced "
         "alignments, numeric identity/score values, MSA content.",
         "Trusted: SAM v1 operation table; idiom tables in sa/props/C11.py.",
         "DESIGN.md section 2, C11",
